@@ -204,6 +204,23 @@ class CGen:
                     texts[i] = texts[i][:-len(old)] + victim
                     lv["items"][i]["alias"] = victim
                     self.tags.add("alias-clash")
+        # an alias that is the COLUMN NAME of a QUALIFIED reference of this level (`SELECT o.price * o.qty AS price … WHERE o.price > 10`): no clash at all — a
+        # qualified reference is never an alias, in any clause
+        aliases = [it["alias"] for it in lv["items"] if it["alias"]]
+        qual = [r for r in lv["join"] + lv["where"] + lv["having"] + [x for it in lv["items"] for x in it["refs"]]
+                + [x for e in lv["group"] + lv["order"] if e[0] == "refs" for x in e[1]] if r[0] == "col" and r[1] is not None and r[2] != "*"]
+        unq = {r[2] for r in lv["join"] + lv["where"] + lv["having"] + [x for it in lv["items"] for x in it["refs"]]
+               + [x for e in lv["group"] + lv["order"] if e[0] == "refs" for x in e[1]] if r[0] == "col" and r[1] is None}
+        if qual and aliases and "alias-clash" not in self.tags and self.p(0.3):
+            victim = self.ch(qual)[2]
+            if re.fullmatch(r"[A-Za-z_][A-Za-z0-9_]*", victim) and victim not in unq and victim not in aliases:
+                i = self.ch([j for j, it in enumerate(lv["items"]) if it["alias"]])
+                old = lv["items"][i]["alias"]
+                if not any(e[1][0][0] == "col" and old == e[1][0][2] for e in lv["group"] + lv["order"] if e[0] == "refs" and len(e[1]) == 1) and ("col", None, old) not in lv["having"] \
+                        and texts[i].endswith(old):
+                    texts[i] = texts[i][:-len(old)] + victim
+                    lv["items"][i]["alias"] = victim
+                    self.tags.add("alias-equals-qualified-column")
         return text.replace("%ITEMS%", ", ".join(texts)), lv
 
     def by_item(self, lv, aliases, clause):
